@@ -7,11 +7,11 @@ git -C /repo worktree remove --force "$WT" 2>/dev/null; rm -rf "$WT"
 git -C /repo worktree add --detach "$WT" HEAD >/dev/null 2>&1 || { echo "worktree failed"; exit 2; }
 res=""
 cmake -G Ninja -S "$WT" -B "$WT/_build" -DCMAKE_BUILD_TYPE=RelWithDebInfo >/dev/null 2>&1 && cmake --build "$WT/_build" >/dev/null 2>&1 || res="$res clean-build-failed"
-( cd "$WT" && timeout 900 sh "$SRC/demo.sh" "$WT/_build" >"$WT/demo_clean.log" 2>&1 ); d0=$?
+( cd "$WT" && timeout 900 $(head -1 "$SRC/demo.sh" | grep -q bash && echo bash || echo sh) "$SRC/demo.sh" "$WT/_build" >"$WT/demo_clean.log" 2>&1 ); d0=$?
 git -C "$WT" apply "$SRC/patch.diff" 2>/dev/null || res="$res patch-does-not-apply"
 cmake --build "$WT/_build" >"$WT/build.log" 2>&1 || res="$res patched-build-failed"
 ctest --test-dir "$WT/_build" -j16 --timeout 900 >"$WT/ctest.log" 2>&1; t=$?
-( cd "$WT" && timeout 900 sh "$SRC/demo.sh" "$WT/_build" >"$WT/demo_patched.log" 2>&1 ); d1=$?
+( cd "$WT" && timeout 900 $(head -1 "$SRC/demo.sh" | grep -q bash && echo bash || echo sh) "$SRC/demo.sh" "$WT/_build" >"$WT/demo_patched.log" 2>&1 ); d1=$?
 echo "demo_clean=$d0 ctest_patched=$t demo_patched=$d1$res files=$(git -C "$WT" diff --stat | tail -1)"
 tail -3 "$WT/demo_patched.log" | cut -c1-200
 git -C /repo worktree remove --force "$WT"; rm -rf "$WT"
